@@ -44,7 +44,7 @@ def render(rec):
     if k == "item":
         return f"use crate::Conc;\n#[::entrait::entrait({'T' if c['withname'] else ''})]\n{OTHER[c['item']]}\n"
     if k == "deps":
-        nd = ", no_deps" if c["nodeps"] else ""
+        nd = {(True, "short"): ", no_deps", (False, "short"): "", (True, "eq"): ", no_deps = true", (False, "eq"): ", no_deps = false"}[(c["nodeps"], c.get("ndform", "short"))]
         use = "use crate::{Conc, Gen};\n"
         if c["mode"] == "fn":
             return f"{use}#[::entrait::entrait(T{nd})]\nfn f<D>({rec['paramtext']}) {{ }}\n"
